@@ -6,6 +6,7 @@ package props
 
 import (
 	"fmt"
+	"sort"
 	"strings"
 	"testing"
 
@@ -80,7 +81,12 @@ func c08Oracle(w *rnsWorld, st *rnsStep) *rnsFailure {
 				if a.Value != st.From {
 					return &rnsFailure{"C08/accept-wrong-bidder", fmt.Sprintf("accepting %s's bid on %s made %s the owner", short(st.From), k, short(a.Value))}
 				}
-				want := st.BidsBefore[st.From+strings.ToLower(st.Name)]
+				// the full price of a bid is what the bidder put into escrow for it (the model's account of what left the
+				// bidder's balance and has not come back), not whatever figure the bid record carries
+				want := st.EscrowModel
+				if want.Empty() {
+					want = st.BidsBefore[st.From+strings.ToLower(st.Name)]
+				}
 				for _, c := range want {
 					got := st.BalAfter.Get(owner, c.Denom).Sub(st.BalBefore.Get(owner, c.Denom))
 					if !got.Equal(c.Amount) {
@@ -161,7 +167,7 @@ type rnsWeights struct{ bidHeavy bool }
 
 func rnsMachine(rt *rapid.T, c *chain.Chain, wts rnsWeights, oracle func(*rnsWorld, *rnsStep) *rnsFailure, rec *ev.Rec) *rnsWorld {
 	w := newRnsWorld(c, 4)
-	pool := []string{"a.jkl", "ab.jkl", "abc.ibc", "abcde.jkl", "n4me.jkl", "x_y-z.ibc", "superjkl.jkl", "myibc.ibc"}
+	pool := []string{"a.jkl", "a-b.jkl", "ab.jkl", "abc.ibc", "abcde.jkl", "abcde-f.jkl", "n4me.jkl", "x_y-z.ibc", "superjkl.jkl", "myibc.ibc"} // some names are a neighbour plus a hyphenated tail
 	n := rapid.IntRange(2, 4).Draw(rt, "nNames")
 	start := rapid.IntRange(0, len(pool)-1).Draw(rt, "pool")
 	for i := 0; i < n; i++ {
@@ -204,7 +210,13 @@ func rnsMachine(rt *rapid.T, c *chain.Chain, wts rnsWeights, oracle func(*rnsWor
 			key := w.drawCanon(rt)
 			p := chain.Acc(60 + rapid.IntRange(0, 3).Draw(rt, "pauper"))
 			if bal := w.c.App.BankKeeper.GetBalance(w.f.Ctx, p.Addr, "ujkl"); bal.IsZero() && rapid.Bool().Draw(rt, "pocketMoney") {
-				must(w.c.App.BankKeeper.SendCoins(w.f.Ctx, w.accs[3].Addr, p.Addr, sdk.NewCoins(sdk.NewInt64Coin("ujkl", rapid.Int64Range(1, 3_000_000).Draw(rt, "coins")))))
+				pocket := sdk.NewInt64Coin("ujkl", rapid.Int64Range(1, 3_000_000).Draw(rt, "coins"))
+				for _, donor := range []chain.Account{w.accs[3], w.accs[2], w.accs[1], w.accs[0], chain.Acc(70)} { // whoever can spare it
+					if w.c.App.BankKeeper.GetBalance(w.f.Ctx, donor.Addr, "ujkl").IsGTE(pocket) {
+						must(w.c.App.BankKeeper.SendCoins(w.f.Ctx, donor.Addr, p.Addr, sdk.NewCoins(pocket)))
+						break
+					}
+				}
 			}
 			sp := spell(rt, key)
 			check(w.run("register", p, sp, newMsgRegisterName(p.Bech, sp, rapid.Int64Range(1, 2).Draw(rt, "years"), "{}", false), nil))
@@ -267,6 +279,45 @@ func rnsMachine(rt *rapid.T, c *chain.Chain, wts rnsWeights, oracle func(*rnsWor
 				st.Coin = coin
 				st.EscrowModel = w.escrow[s.Bech+strings.ToLower(sp)]
 			}))
+		},
+		// a bidder whose money is tied up in its standing bid changes that bid: its free balance alone does not cover the
+		// new amount, free balance plus the old escrow does
+		"rebidTiedUp": func(rt *rapid.T) {
+			bids := w.openBids()
+			slots := make([]string, 0, len(bids))
+			for k, c := range bids {
+				if len(c) == 1 && c[0].Denom == "ujkl" && c[0].Amount.IsInt64() && c[0].Amount.Int64() >= 2 {
+					slots = append(slots, k)
+				}
+			}
+			sort.Strings(slots)
+			if len(slots) == 0 {
+				rt.Skip()
+			}
+			slot := slots[rapid.IntRange(0, len(slots)-1).Draw(rt, "slot")]
+			var s chain.Account
+			ok := false
+			for _, a := range w.accs {
+				if strings.HasPrefix(slot, a.Bech) {
+					s, ok = a, true
+				}
+			}
+			if !ok {
+				rt.Skip()
+			}
+			name := slot[len(s.Bech):]
+			old := bids[slot][0].Amount.Int64()
+			free := rapid.Int64Range(0, old-1).Draw(rt, "freeBalance")
+			if bal := w.c.App.BankKeeper.GetBalance(w.f.Ctx, s.Addr, "ujkl").Amount; bal.GT(sdk.NewInt(free)) {
+				must(w.c.App.BankKeeper.SendCoins(w.f.Ctx, s.Addr, chain.Acc(70).Addr, sdk.NewCoins(sdk.NewCoin("ujkl", bal.SubRaw(free)))))
+			}
+			coin := sdk.NewInt64Coin("ujkl", rapid.Int64Range(free+1, free+old).Draw(rt, "newBid"))
+			w.logf("%s keeps %d ujkl free besides its standing bid of %d on %q", short(s.Bech), free, old, name)
+			check(w.run("bid", s, name, rnstypes.NewMsgBid(s.Bech, name, coin), func(st *rnsStep) {
+				st.Coin = coin
+				st.EscrowModel = w.escrow[s.Bech+strings.ToLower(name)]
+			}))
+			w.tiedUp = true
 		},
 		"cancel": func(rt *rapid.T) {
 			key := w.drawCanon(rt)
@@ -590,6 +641,9 @@ func TestC09(t *testing.T) {
 		}
 		if w.cancelAfterRebid {
 			rec.Count("cancel-after-rebid")
+		}
+		if w.tiedUp {
+			rec.Count("histories-with-a-re-bid-by-a-bidder-whose-money-is-tied-up")
 		}
 		rec.Case(w.rebid, ev.Hash(w.trace...), func() interface{} { return w.trace })
 	})
